@@ -615,6 +615,37 @@ def update_return_table(prog):
     return None
 
 
+def check_combine_types(rep, prog, rule='R02j'):
+    """the saturating sum (closed_plus) that adds edge weights to distances is instantiated with the distance type: when a floating-point
+    distance / weight is handed to a closed_plus<integral> (or any callee) through an implicit floating -> integral conversion, every label is
+    computed on truncated weights (edges lighter than 1 cost nothing)"""
+    n = 0
+    for fn in prog.functions:
+        if fn.implicit or not (fn.file.startswith(env.REPO + '/include') or fn.file.startswith(env.WITNESS + '/positive')):
+            continue
+        for c in fn.walk():
+            if not (c.k == 'CXXOperatorCallExpr' and c.op == '()' and c.callee and c.callee['g'] == 'parmcb::detail::closed_plus::operator()'):
+                continue
+            n += 1
+            what = 'the saturating sum is applied in the type of the distances it adds'
+            lossy = None
+            for a in c.c[2:]:
+                x = a
+                while x.k in ('ImplicitCastExpr', 'MaterializeTemporaryExpr', 'ExprWithCleanups', 'CXXBindTemporaryExpr') and x.c:
+                    if x.k == 'ImplicitCastExpr' and x.j.get('ck') == 'FloatingToIntegral':
+                        lossy = x
+                    x = x.c[0]
+            if lossy is not None:
+                rep.violation(rule, c, fn, what,
+                              '`%s`: the argument `%s` of type %s is converted to %s before it is added - weights and distances are truncated to integers '
+                              '(an edge lighter than 1 costs nothing, so a light cycle can be traversed for free)' % (
+                                  c.text(50), lossy.c[0].text(30), (lossy.c[0].type or {}).get('s', '?'), (lossy.type or {}).get('s', '?')),
+                              key='%s|%s|truncating-sum' % (rule, fn.g))
+            else:
+                rep.ok(rule, c, fn, what, '')
+    return n
+
+
 def check_pruning(rep, prog):
     n = 0
     for fn in prog.fns('parmcb::bidirectional_signed_dijkstra'):
